@@ -176,6 +176,26 @@ Definition format (c : cfg) (d : obj) : result :=
   | Ok f => Ok (group_stage c (mapping_stage c f))
   end.
 
+(* ---- which formatter NewEntityFormatter hands out (newFlatmapFormatter) ----
+   ns: the value found under the proxy namespace of the backend's extra_config (None: absent).
+   The flatmap formatter REPLACES this formatter (allow/deny/mapping are then ignored) exactly
+   when that value is an object whose "flatmap_filter" is a list holding at least one usable
+   operation: an object with a string "type".  Anything else - absent, another type, an empty
+   list, a list of unusable entries - leaves the entity formatter modelled above in place. *)
+Definition usable_op (v : json) : bool :=
+  match v with
+  | JObj m => match lookup "type" m with Some (JStr _) => true | _ => false end
+  | _ => false
+  end.
+Definition uses_flatmap (ns : option json) : bool :=
+  match ns with
+  | Some (JObj e) => match lookup "flatmap_filter" e with
+                     | Some (JArr vs) => existsb usable_op vs
+                     | _ => false
+                     end
+  | _ => false
+  end.
+
 (* ---- decoders (encoding.JSONDecoder / JSONCollectionDecoder; config.go selects by
    is_collection): None = the decoder returns an error.  `null` leaves the Go value nil,
    which is observed as an empty map / empty slice. *)
